@@ -67,6 +67,9 @@ pub enum HB {
     S503,
     S429,
     S429RetryAfter,
+    /// 429 with `Retry-After: 3600`: still a transient failure — the next protocol is tried, the
+    /// hint is not a reason to stop (and must not be slept on before failing over)
+    S429RetryAfterLong,
     S404,
     S403,
     Malformed,
@@ -121,7 +124,7 @@ enum Class {
 fn hclass(b: HB) -> Class {
     match b {
         HB::Valid => Class::Good,
-        HB::S500 | HB::S502 | HB::S503 | HB::S429 | HB::S429RetryAfter | HB::Refuse | HB::Stall => Class::Transient,
+        HB::S500 | HB::S502 | HB::S503 | HB::S429 | HB::S429RetryAfter | HB::S429RetryAfterLong | HB::Refuse | HB::Stall => Class::Transient,
         HB::S404 | HB::S403 => Class::Definitive,
         HB::Malformed | HB::AcceptClose | HB::CloseMid => Class::Unclassified,
     }
@@ -145,6 +148,7 @@ fn http_behaviour(b: HB, tag: u32) -> HttpBehaviour {
         HB::S503 => HttpBehaviour::Status(503, None),
         HB::S429 => HttpBehaviour::Status(429, None),
         HB::S429RetryAfter => HttpBehaviour::Status(429, Some(1)),
+        HB::S429RetryAfterLong => HttpBehaviour::Status(429, Some(3600)),
         HB::S404 => HttpBehaviour::Status(404, None),
         HB::S403 => HttpBehaviour::Status(403, None),
         HB::Malformed => HttpBehaviour::Ok(MALFORMED.to_vec()),
@@ -509,7 +513,7 @@ async fn run_scenario(sc: Scenario) -> (Scenario, Result<String, (String, String
 
 fn scenarios(tier: Tier) -> Vec<Scenario> {
     let hb_all: Vec<HB> = {
-        let mut v = vec![HB::Valid, HB::S500, HB::S502, HB::S503, HB::S429, HB::S429RetryAfter, HB::S404, HB::S403, HB::Malformed, HB::Refuse, HB::AcceptClose, HB::CloseMid];
+        let mut v = vec![HB::Valid, HB::S500, HB::S502, HB::S503, HB::S429, HB::S429RetryAfter, HB::S429RetryAfterLong, HB::S404, HB::S403, HB::Malformed, HB::Refuse, HB::AcceptClose, HB::CloseMid];
         if tier == Tier::Thorough {
             v.push(HB::Stall);
         }
@@ -703,7 +707,7 @@ pub fn run(tier: Tier, seed: u64) -> i32 {
 pub fn replay(w: &serde_json::Value) -> i32 {
     let wit = &w["witness"];
     let parse_hb = |s: &str| -> Option<HB> {
-        [HB::Valid, HB::S500, HB::S502, HB::S503, HB::S429, HB::S429RetryAfter, HB::S404, HB::S403, HB::Malformed, HB::Refuse, HB::AcceptClose, HB::CloseMid, HB::Stall].into_iter().find(|b| format!("Some({b:?})") == s)
+        [HB::Valid, HB::S500, HB::S502, HB::S503, HB::S429, HB::S429RetryAfter, HB::S429RetryAfterLong, HB::S404, HB::S403, HB::Malformed, HB::Refuse, HB::AcceptClose, HB::CloseMid, HB::Stall].into_iter().find(|b| format!("Some({b:?})") == s)
     };
     let parse_tb = |s: &str| -> TB {
         let payload = |prefix: &str| -> Option<u64> { s.strip_prefix(prefix)?.strip_suffix(')')?.parse().ok() };
